@@ -84,7 +84,19 @@ def scenarios() -> list[dict]:
         add(f"wt_normalize_{tag}", "write_tool", len_f, {"base_hash": h_len}, exp)
         add(f"at_overwrite_{tag}", "atomic", old_f, {"content": NEW, "base_hash": h_old},
             "error:Hash mismatch" if tag == "hashbad" else "success")
+    # the target already holds the new text - byte for byte, or with CRLF / lone CR line ends (a text-mode read cannot
+    # tell those apart): success still means the file's bytes hash to canonical_hash
+    crlf_f = {T: {"text": NEW.replace("\n", "\r\n"), "mode": 0o640}}
+    add("wt_overwrite_same", "write_tool", {T: {"text": NEW, "mode": 0o640}}, {"content": NEW})
+    add("wt_overwrite_same_crlf", "write_tool", crlf_f, {"content": NEW})
+    add("wt_normalize_crlf", "write_tool", {T: {"text": OLD.replace("\n", "\r\n"), "mode": 0o640}}, {})
+    add("wt_changes_noop_crlf", "write_tool", {T: {"text": OLD.replace("\n", "\r\n"), "mode": 0o640}}, {"changes": {}})
+    add("at_overwrite_same_crlf", "atomic", crlf_f, {"content": NEW})
     add("wt_missing_parent", "write_tool", {}, {"content": NEW}, target="sub/dir/x.oct.md")
+    # the nearest existing ancestor is an EMPTY directory that was there before: a failed write must leave it in place
+    empty_d = {"keep": {"dir": True, "mode": 0o750}, "other.txt": {"text": "x", "mode": 0o640}}
+    add("wt_missing_parent_under_empty_dir", "write_tool", empty_d, {"content": NEW}, target="keep/2026/q3/x.oct.md")
+    add("at_missing_parent_under_empty_dir", "atomic", empty_d, {"content": NEW}, target="keep/2026/q3/x.oct.md")
     add("wt_readonly", "write_tool", ro_f, {"content": NEW})
     add("wt_corrections_only", "write_tool", old_f, {"content": NEW, "corrections_only": True})
     add("wt_corrections_only_missing_parent", "write_tool", {}, {"content": NEW, "corrections_only": True},
@@ -372,6 +384,10 @@ def snapshot(root: str) -> dict[str, tuple]:
 def _setup(scn: dict, root: str) -> None:
     for rel, spec in scn["pre"].items():
         p = os.path.join(root, rel)
+        if spec.get("dir"):  # a pre-existing (empty) directory
+            os.makedirs(p, exist_ok=True)
+            os.chmod(p, spec["mode"])
+            continue
         os.makedirs(os.path.dirname(p), exist_ok=True)
         with open(p, "w", encoding="utf-8", newline="") as f:
             f.write(spec["text"])
